@@ -102,6 +102,47 @@ def all_layouts(ctx):
     return text(d["l2"]), text(d["l3"]), len(d["l2"]), len(d["l3"])
 
 
+HCFG = """SPECIFICATION HSpec
+CONSTANTS
+ MaxFiles = 2
+ MaxPasses = 3
+ Memoise = %s
+ FileSeq <- MCLayouts
+ HduForms <- MCHduForms
+ KeyForms <- MCKeyForms
+INVARIANT LaterEnumerationIsFresh
+INVARIANT NoAliasing
+INVARIANT AlwaysAgree
+INVARIANT EveryPassComplete
+INVARIANT Emit
+CHECK_DEADLOCK FALSE
+"""
+
+
+def histories(ctx):
+    """spec/CollectionHistory.tla: every history of three complete enumerations of one collection object with client
+    edits of the yielded objects in between; TLC checks that every enumeration yields what a fresh collection would and
+    emits the operation logs.  Replayed: the logs whose first pass is followed by an edit."""
+    defs = [("MCLayouts", '<< <<E, I({" ", "A"}), I({" "})>>, <<I({" ", "B"})>> >>'),
+            ("MCHduForms", '{"none", "each"}'), ("MCKeyForms", '{"none", "one"}'),
+            'Emit == HDone => PrintT(<<"H", ToJson([log |-> log])>>)']
+    mod = tla.module("MCHistory", ["CollectionHistory", "Json"], defs)
+    r = ctx.tlc("MCHistory", extra={"MCHistory.tla": mod}, cfg_text=HCFG % "FALSE", workers=4, timeout=600)
+    logs = sorted(set(tuple(x["log"]) for x in r.json_lines("H")))
+    hists = [list(l) for l in logs if l[0] in ("d", "i") and l[1] in ("parity", "edit")]
+    if len(hists) < 8:
+        ctx.machinery("TLC emitted %d histories" % len(hists))
+    ctx.note("histories", len(hists))
+    if not ctx.quick:
+        # the design that caches the description objects is refuted by the same invariants
+        r2 = ctx.tlc("MCHistory", extra={"MCHistory.tla": mod}, cfg_text=HCFG % "TRUE", workers=4, timeout=600,
+                     expect_violation=True, count=False)
+        if r2.violated not in ("LaterEnumerationIsFresh", "NoAliasing", "AlwaysAgree"):
+            ctx.machinery("the memoising design (Memoise = TRUE) was not refuted by TLC: %r" % (r2.violated,))
+        ctx.note("memoising_design_refuted_by", r2.violated)
+    return hists
+
+
 # ---------------------------------------------------------------------------------------------------
 # writing the FITS files TLC describes
 # ---------------------------------------------------------------------------------------------------
@@ -114,8 +155,8 @@ def _wcs_cards(header, w):
     header["CRVAL2" + k] = float(w["crval"][1])
     header["CRPIX1" + k] = float(w["crpix"][0])
     header["CRPIX2" + k] = float(w["crpix"][1])
-    header["CDELT1" + k] = -0.001
-    header["CDELT2" + k] = 0.001
+    header["CDELT1" + k] = w["cdelt"][0] / 1000.0
+    header["CDELT2" + k] = w["cdelt"][1] / 1000.0
     header["CUNIT1" + k] = "deg"
     header["CUNIT2" + k] = "deg"
 
@@ -244,49 +285,122 @@ class _NoHook(Exception):
     pass
 
 
-def observe(coll):
-    descs = []
-    for d in coll.descriptions():
-        descs.append({"shape": [int(x) for x in d.shape], "crval": [float(x) for x in d.wcs.wcs.crval],
-                      "crpix": [float(x) for x in d.wcs.wcs.crpix], "id": getattr(d, "collection_id", None)})
-    imgs = []
-    for im in coll.images():
-        a = im.asarray()
+def _snapshot(o, is_image):
+    w = o.wcs.wcs
+    d = {"shape": [int(x) for x in o.shape], "crval": [float(x) for x in w.crval], "crpix": [float(x) for x in w.crpix],
+         "cdelt": [float(x) for x in w.cdelt], "id": getattr(o, "collection_id", None)}
+    if is_image:
+        a = o.asarray()
         lo, hi = float(a.min()), float(a.max())
-        imgs.append({"shape": [int(x) for x in im.shape], "crval": [float(x) for x in im.wcs.wcs.crval],
-                     "crpix": [float(x) for x in im.wcs.wcs.crpix], "id": getattr(im, "collection_id", None),
-                     "val": lo if lo == hi else [lo, hi]})
+        d["val"] = lo if lo == hi else [lo, hi]
+    return d
+
+
+def _one_pass(coll, gen):
+    """A complete enumeration; what every object says at the moment it is yielded, and the objects themselves."""
+    items, objs = [], []
+    for o in (coll.descriptions() if gen == "d" else coll.images()):
+        items.append(_snapshot(o, gen == "i"))
+        objs.append(o)
+    return items, objs
+
+
+def _mutate(objs, mode, is_image):
+    """The client edits, in place, what it was handed."""
+    for k, o in enumerate(objs):
+        if mode == "parity":
+            o.ensure_negative_parity()
+        else:
+            o.flip_parity()
+            o.wcs.wcs.crval = [123.0, -45.0]
+            o.wcs.wcs.crpix = [1.0 + k, 2.0]
+            if is_image:
+                try:
+                    o.asarray()[...] = -7.0
+                except ValueError:      # read-only buffer
+                    pass
+
+
+def run_history(coll, hist, use_lib):
+    """hist: TLC's operation log ("d" / "i" = a complete pass, "parity" / "edit" = the client edits the last pass's
+    objects in place).  With use_lib the library's own in-place consumer (_is_multi_tan: ensure_negative_parity on the
+    descriptions it scans) stands in for the first client edit.  -> passes [(gen, items)], export_simple(), notes"""
+    passes, objs, gen, notes = [], [], None, []
+    for n, op in enumerate(hist):
+        if op in ("d", "i"):
+            gen = op
+            items, objs = _one_pass(coll, gen)
+            passes.append((gen, items))
+        elif use_lib and n == 1:
+            objs = []
+            try:
+                coll._is_multi_tan()
+            except AttributeError as e:
+                notes.append("no _is_multi_tan on the collection (%s)" % e)
+        else:
+            _mutate(objs, op, gen == "i")
     simple = [(str(t[0]), t[1]) for t in coll.export_simple()]
-    return descs, imgs, simple
+    return passes, simple, notes
 
 
-def _try(entry, paths, hs, ks, cli, flip):
+def _try(entry, paths, hs, ks, cli, flip, hist=("d", "i"), use_lib=False):
     import warnings
     with warnings.catch_warnings():
         warnings.simplefilter("ignore")
         coll = make_collection(entry, paths, hs, ks, cli, flip)
-        return observe(coll)
+        return run_history(coll, hist, use_lib)
+
+
+def _judge(items, what, exp, paths, hform, kform):
+    """One enumeration against TLC's expectation -> [(severity, key, message)]"""
+    out = []
+    n = len(exp)
+    if len(items) != n:
+        out.append(("V", "item-count", "%s() yields %d items for %d input paths (%d distinct files)" % (what, len(items), n, len(set(paths)))))
+        return out
+    eshapes = [e["shape"] for e in exp]
+    got = [o["shape"] for o in items]
+    if got != eshapes and sorted(got) == sorted(eshapes):
+        out.append(("V", "order", "%s() yields the selected HDUs in the order %s, input order is %s" % (what, got, eshapes)))
+        return out
+    for k, (o, e) in enumerate(zip(items, exp)):
+        wrong_val = "val" in o and o["val"] != float(e["val"])
+        if o["shape"] != e["shape"] or wrong_val or o["crpix"] != [float(x) for x in e["crpix"]]:
+            out.append(("V", "hdu-%s:wrong-hdu" % hform,
+                        "%s()[%d] is not HDU %d of input %d: shape %s value %s crpix %s, selected HDU has shape %s value %s crpix %s"
+                        % (what, k, e["hdu"], k, o["shape"], o.get("val", "-"), o["crpix"], e["shape"], e["val"], e["crpix"])))
+        elif o["crval"] != [float(x) for x in e["crval"]] or o["cdelt"] != [x / 1000.0 for x in e["cdelt"]]:
+            out.append(("V", "key-%s:wrong-wcs" % kform,
+                        "%s()[%d] carries the WCS with CRVAL %s CDELT %s; the selected key %r of HDU %d has CRVAL %s CDELT %s/1000"
+                        % (what, k, o["crval"], o["cdelt"], e["key"], e["hdu"], e["crval"], e["cdelt"])))
+        if o["id"] != paths[k]:
+            out.append(("D", "collection_id", "%s()[%d].collection_id is %r, input path is %r" % (what, k, o["id"], paths[k])))
+    return out
 
 
 def replay_case(args):
-    """-> (findings, nontrivial) ; a finding is (severity, key, message): 'V' property monitor, 'D' drift, 'M' machinery."""
-    root, idx, rec, entries = args
+    """-> (findings, nontrivial, repeated) ; a finding is (severity, key, message, case): 'V' property monitor, 'D' drift."""
+    root, idx, rec, entries, hists = args
     repo.setup()
     hs, ks, cli, exp = rec["hs"], rec["ks"], rec["cli"], rec["exp"]
     flip, respell = (idx // 4) % 2 == 1, (idx // 8) % 2 == 1
     paths = input_paths(root, exp, respell)
     hform, kform = hs["form"], ks["form"]
+    names = {"d": "descriptions", "i": "images"}
     res = []
-    for entry in entries:
+    for en, entry in enumerate(entries):
+        hist = hists[(idx + en) % len(hists)]
+        use_lib = hist[:2] == ["d", "parity"] and (idx // len(hists)) % 2 == 0
         case = {"entry": entry, "layouts": rec["lay"], "hdu_index": hs, "wcs_key": ks, "expected": exp,
-                "paths": [os.path.relpath(p_, root) for p_ in paths]}
+                "paths": [os.path.relpath(p_, root) for p_ in paths],
+                "history": [("_is_multi_tan" if (use_lib and n == 1) else op) for n, op in enumerate(hist)]}
         if entry == "cli":
             case["argv"] = _cli_opts(cli, hs, ks)
 
         def bad(sev, key, msg, case=case, entry=entry):
             res.append((sev, "%s:%s" % (entry, key), msg, case))
         try:
-            descs, imgs, simple = _try(entry, paths, hs, ks, cli, flip)
+            passes, simple, notes = _try(entry, paths, hs, ks, cli, flip, hist, use_lib)
         except _NoHook as e:
             bad("D", "no-hook", str(e))
             continue
@@ -302,33 +416,37 @@ def replay_case(args):
             bad("V", cls + ":raises", "an in-scope selection (hdu_index %s, wcs_key %s, %d file(s)) fails with %s: %s"
                 % (_show(hs), _show(ks), len(paths), type(e).__name__, str(e)[:160]))
             continue
-        n = len(exp)
-        if len(descs) != n or len(imgs) != n:
-            bad("V", "item-count", "%d descriptions and %d images for %d input paths (%d distinct files; hdu_index %s, wcs_key %s)"
-                % (len(descs), len(imgs), n, len(set(paths)), _show(hs), _show(ks)))
+        for note in notes:
+            bad("D", "lib-consumer", note)
+        failed = False
+        for pn, (gen, items) in enumerate(passes):
+            found = _judge(items, names[gen], exp, paths, hform, kform)
+            if pn > 0 and any(f[0] == "V" for f in found):
+                # does the outcome depend on the history?  the same enumeration on a fresh collection object decides
+                try:
+                    fresh = _try(entry, paths, hs, ks, cli, flip, [gen])[0][0][1]
+                    fresh_ok = not any(f[0] == "V" for f in _judge(fresh, names[gen], exp, paths, hform, kform))
+                except BaseException:  # noqa
+                    fresh_ok = False
+                if fresh_ok:
+                    first = [f for f in found if f[0] == "V"][0]
+                    found = [("V", "later-enumeration:" + names[gen],
+                              "after the history %s on one collection object, %s() no longer yields what a fresh collection yields: %s"
+                              % (case["history"], names[gen], first[2]))]
+            for sev, key, msg in found:
+                failed = failed or sev == "V"
+                bad(sev, key, msg)
+            if failed:
+                break
+        if failed:
             continue
-        eshapes = [e["shape"] for e in exp]
-        for what, items in (("descriptions", descs), ("images", imgs)):
-            got = [o["shape"] for o in items]
-            if got != eshapes and sorted(got) == sorted(eshapes):
-                bad("V", "order", "%s() yields the selected HDUs in the order %s, input order is %s" % (what, got, eshapes))
-                continue
-            for k, (o, e) in enumerate(zip(items, exp)):
-                wrong_val = what == "images" and o["val"] != float(e["val"])
-                if o["shape"] != e["shape"] or wrong_val or o["crpix"] != [float(x) for x in e["crpix"]]:
-                    bad("V", "hdu-%s:wrong-hdu" % hform,
-                        "%s()[%d] is not HDU %d of input %d: shape %s value %s crpix %s, selected HDU has shape %s value %s crpix %s"
-                        % (what, k, e["hdu"], k, o["shape"], o.get("val", "-"), o["crpix"], e["shape"], e["val"], e["crpix"]))
-                elif o["crval"] != [float(x) for x in e["crval"]]:
-                    bad("V", "key-%s:wrong-wcs" % kform,
-                        "%s()[%d] carries the WCS with CRVAL %s; the selected key %r of HDU %d has CRVAL %s"
-                        % (what, k, o["crval"], e["key"], e["hdu"], e["crval"]))
-                if o["id"] != paths[k]:
-                    bad("D", "collection_id", "%s()[%d].collection_id is %r, input path is %r" % (what, k, o["id"], paths[k]))
-        for k, (d, im) in enumerate(zip(descs, imgs)):
-            if d["shape"] != im["shape"] or d["crval"] != im["crval"] or d["crpix"] != im["crpix"]:
-                bad("V", "descriptions-vs-images", "item %d: description has shape %s crval %s crpix %s, image has shape %s crval %s crpix %s"
-                    % (k, d["shape"], d["crval"], d["crpix"], im["shape"], im["crval"], im["crpix"]))
+        lastd = [it for g, it in passes if g == "d"]
+        lasti = [it for g, it in passes if g == "i"]
+        if lastd and lasti:
+            for k, (d, im) in enumerate(zip(lastd[-1], lasti[-1])):
+                if any(d[f] != im[f] for f in ("shape", "crval", "crpix", "cdelt")):
+                    bad("V", "descriptions-vs-images", "item %d: description has shape %s crval %s crpix %s cdelt %s, image has shape %s crval %s crpix %s cdelt %s"
+                        % (k, d["shape"], d["crval"], d["crpix"], d["cdelt"], im["shape"], im["crval"], im["crpix"], im["cdelt"]))
         want = [(paths[k], e["hdu"]) for k, e in enumerate(exp)]
         if [(p, int(h)) for p, h in simple] != want:
             bad("V", "export_simple", "export_simple() = %s, selected %s" % ([(os.path.basename(p), h) for p, h in simple],
@@ -367,7 +485,22 @@ def e2e_case(args):
     try:
         with warnings.catch_warnings(), contextlib.redirect_stdout(io.StringIO()), contextlib.redirect_stderr(io.StringIO()):
             warnings.simplefilter("ignore")
-            if mode == "tile_fits-e2e":
+            if mode == "tiler-history":
+                # the library's own consumers on ONE collection object: a TAN tiling, then both enumerations again
+                from toasty import collection as C
+                from toasty.fits_tiler import FitsTiler
+                coll = C.load(list(paths), **_kwargs(hs, ks))
+                t = FitsTiler(coll, out_dir=out, tiling_method=toasty.TilingMethod.TAN)
+                t.tile(parallel=1)
+                level = t.builder.imgset.tile_levels
+                for gen, what in (("d", "descriptions"), ("i", "images")):
+                    found = _judge(_one_pass(coll, gen)[0], what, exp, paths, hs["form"], ks["form"])
+                    for sev, key, msg in found:
+                        if sev == "V":
+                            res.append(("V", "tiler-history:later-enumeration:" + what,
+                                        "after FitsTiler(coll, tiling_method=TAN).tile() on the same collection object: " + msg, case))
+                            break
+            elif mode == "tile_fits-e2e":
                 _o, bld = toasty.tile_fits(list(paths), out_dir=out, parallel=1, **_kwargs(hs, ks))
                 level = bld.imgset.tile_levels
             else:
@@ -422,6 +555,7 @@ def run(ctx):
                 "crval, crpix) per input path plus the files to write; each case is loaded by the real code through "
                 "load / SimpleFitsCollection / `toasty view` argv / tile_fits and compared. non-trivial = some file contributes "
                 "an HDU other than 0 or a key other than ' '")
+    hists = histories(ctx)
     groups = []     # (name, root, cases)
     root, recs = tlc_cases(ctx, "five3", LAYOUTS_5, 3)
     groups.append(("five3", root, recs))
@@ -456,14 +590,14 @@ def run(ctx):
                 ents = (ENTRIES[idx % 4], ENTRIES[(idx + 2) % 4])
             else:
                 ents = (ENTRIES[idx % 4],)
-            jobs.append((root_, idx, rec, ents))
+            jobs.append((root_, idx, rec, ents, hists))
             names.append(name)
     e2e_roots = set(g[1] for g in groups if g[0] in ("five3", "six3"))
     # end-to-end subset: same key for every file (so the inputs share one tangent plane), every hdu form, 1..3 files
     e2e = []
     per_class = 2 if ctx.quick else 12
     seen = {}
-    for r_, _i, rec, _e in jobs:
+    for r_, _i, rec, _e, _h in jobs:
         keys = set(e["key"] for e in rec["exp"])
         if len(keys) != 1 or r_ not in e2e_roots:
             continue
@@ -471,13 +605,15 @@ def run(ctx):
         if seen.get(cls, 0) < per_class and any(e["hdu"] != 0 for e in rec["exp"]):
             seen[cls] = seen.get(cls, 0) + 1
             e2e.append((r_, len(e2e), rec, "tile_fits-e2e"))
+            if seen[cls] % 2 == 1:
+                e2e.append((r_, len(e2e), rec, "tiler-history"))
             if rec["hs"]["form"] == "one" and rec["ks"]["form"] == "one":
                 e2e.append((r_, len(e2e), rec, "tile-multi-tan-e2e"))
     with mp.Pool(8) as pool:
         results = pool.map(replay_case, jobs, chunksize=32)
         e2e_results = pool.map(e2e_case, e2e, chunksize=1)
     nrep = 0
-    for (res, nontrivial, repeated), (r_, idx, rec, ents), name in zip(results, jobs, names):
+    for (res, nontrivial, repeated), (r_, idx, rec, ents, _h), name in zip(results, jobs, names):
         nrep += 1 if repeated else 0
         ctx.count(len(ents))
         ctx.trace_ok()
@@ -489,12 +625,14 @@ def run(ctx):
         _report(ctx, res)
     ctx.note("end_to_end_tilings", len(e2e))
     ctx.note("replayed_cases_naming_one_file_twice_with_different_entries", nrep)
-    ctx.note("entry_points", list(ENTRIES) + ["tile_fits-e2e", "tile-multi-tan-e2e"])
-    for _r, _i, rec, ents in jobs[:: max(1, len(jobs) // 5)][:5]:
+    ctx.note("entry_points", list(ENTRIES) + ["tile_fits-e2e", "tile-multi-tan-e2e", "tiler-history"])
+    for _r, _i, rec, ents, _h in jobs[:: max(1, len(jobs) // 5)][:5]:
         ctx.sample({"layouts": rec["lay"], "hdu_index": _show(rec["hs"]), "wcs_key": _show(rec["ks"]), "entry": list(ents),
                     "expected": [[e["hdu"], e["shape"], e["key"], e["crval"]] for e in rec["exp"]]})
     ctx.assume("a path listed twice is two inputs (the documented way to take two extensions of one file); repeated paths are "
                "given both as identical strings and as different spellings of the same file")
+    ctx.assume("the objects yielded by descriptions()/images() belong to the caller, who may edit them in place (the library's own "
+               "tiling code does); a later enumeration of the same collection object must not see such edits")
     ctx.assume("in scope: every selected HDU exists, holds a 2-D image and carries the selected WCS key; per-file lists have one "
                "entry per input path (what happens for tables, missing keys, short lists or files without any image is not judged)")
     ctx.assume("an HDU 'holds image data' when it is a 2-D image array (empty HDUs and binary tables do not); 1-D arrays, cubes, "
